@@ -144,9 +144,11 @@ type ModClause struct {
 type LoopSpec struct {
 	N    int
 	Invs []*Clause
+	Cut  bool // the loop head is a cut point: obligations in and after the loop see the entry facts and the invariants only
 }
 
 type FuncSpec struct {
+	Hints    map[string]map[string]bool // obligation suffix -> labels of the quantified hypotheses it may use
 	Key      string // function identifier as written
 	Extern   bool
 	Params   []string // for extern: parameter names (incl. receiver first)
@@ -603,7 +605,7 @@ func parseExprString(src string) (e Expr, err error) {
 
 var declKeywords = map[string]bool{"hide": true, "before": true, "at": true, "sortspec": true, "after": true, "assert": true, "opaque": true, "reveal": true, "import": true, "ghost": true, "fun": true, "pred": true, "ufun": true,
 	"axiom": true, "func": true, "extern": true, "lemma": true, "requires": true, "ensures": true,
-	"modifies": true, "loop": true, "invariant": true, "pure": true, "free": true, "trusted": true, "mutates": true,
+	"modifies": true, "loop": true, "hint": true, "invariant": true, "pure": true, "free": true, "trusted": true, "mutates": true,
 	"package": true}
 
 // logical lines: a line starting with a keyword begins a new item; other lines continue the previous.
@@ -1041,17 +1043,42 @@ func (db *SpecDB) LoadSpecFile(path string, pkgPath string) error {
 			} else {
 				cur.Asserts[curCall] = append(cur.Asserts[curCall], &Clause{Kind: "assert", Tags: tags, Label: label, E: e, Src: body})
 			}
+		case "hint":
+			// hint <obligation suffix>: label, label, ...  (only the named quantified hypotheses are used for that obligation)
+			if cur == nil {
+				return fail(ll, "hint outside func")
+			}
+			i := strings.Index(rest, ":")
+			if i < 0 {
+				return fail(ll, "hint <obligation>: labels")
+			}
+			hs := map[string]bool{}
+			for _, f := range strings.Split(rest[i+1:], ",") {
+				if f = strings.TrimSpace(f); f != "" {
+					hs[f] = true
+				}
+			}
+			if cur.Hints == nil {
+				cur.Hints = map[string]map[string]bool{}
+			}
+			cur.Hints[strings.TrimSpace(rest[:i])] = hs
 		case "loop":
 			curCall = 0
 			if cur == nil {
 				return fail(ll, "loop outside func")
 			}
 			var n int
-			fmt.Sscanf(strings.TrimSuffix(strings.TrimSpace(rest), ":"), "%d", &n)
+			hd := strings.TrimSuffix(strings.TrimSpace(rest), ":")
+			isCut := false
+			if strings.HasSuffix(hd, " cut") {
+				isCut = true
+				hd = strings.TrimSpace(strings.TrimSuffix(hd, " cut"))
+			}
+			fmt.Sscanf(hd, "%d", &n)
 			if n <= 0 {
 				return fail(ll, "loop N:")
 			}
-			curLoop = &LoopSpec{N: n}
+			curLoop = &LoopSpec{N: n, Cut: isCut}
 			cur.Loops[n] = curLoop
 		default:
 			return fail(ll, "unknown declaration: "+kw)
